@@ -145,8 +145,14 @@ func (d *D) Of(v ssa.Value) string {
 	case *ssa.ChangeInterface:
 		return d.Of(x.X)
 	case *ssa.ChangeType:
+		if f, ok := d.foldConv(x.X, x.Type()); ok {
+			return f
+		}
 		return d.Of(x.X)
 	case *ssa.Convert:
+		if f, ok := d.foldConv(x.X, x.Type()); ok {
+			return f
+		}
 		return typeShort(x.Type()) + "(" + d.Of(x.X) + ")"
 	case *ssa.TypeAssert:
 		s := d.Of(x.X) + ".(" + typeShort(x.AssertedType) + ")"
@@ -906,4 +912,32 @@ func (d *D) inlinePureCond(c *ssa.Call) (ssa.Value, *D, bool) {
 		}
 	}
 	return ret.Results[0], sub, true
+}
+
+// foldConv folds the conversion of an integer constant (possibly a phi
+// resolved on the path) to another integer type, as the compiler folds
+// uint64(types.NewMessage).
+func (d *D) foldConv(src ssa.Value, to types.Type) (string, bool) {
+	for i := 0; i < 4; i++ {
+		if ph, ok := src.(*ssa.Phi); ok && d.PhiVal != nil {
+			if r := d.PhiVal(ph); r != nil {
+				src = r
+				continue
+			}
+		}
+		break
+	}
+	c, ok := src.(*ssa.Const)
+	if !ok || c.Value == nil || c.Value.Kind() != constant.Int {
+		return "", false
+	}
+	b, ok := to.Underlying().(*types.Basic)
+	if !ok || b.Info()&types.IsInteger == 0 {
+		return "", false
+	}
+	folded := ssa.NewConst(c.Value, to)
+	if n := d.P.ConstName(folded); n != "" {
+		return n, true
+	}
+	return constStr(folded), true
 }
